@@ -131,6 +131,23 @@ func verifC17All(root ast.Node) {
 // verifC17Many checks WalkMany / InspectMany / PreorderMany over a list of roots:
 // order, paths ("[i]..."), pruning at a symbolic node index, stop after k nodes.
 func verifC17Many(roots []ast.Node, exhaustive bool) {
+	if len(roots) == 0 {
+		var got []verifVisit
+		ast.WalkMany(roots, verifRecorder{&got, "", -1})
+		ast.InspectMany(roots, func(n ast.Node) bool {
+			verifFail("C17/inspectmany-prune", "node visited in an empty list")
+			return true
+		})
+		ast.PreorderMany(roots)(func(n ast.Node) bool {
+			verifFail("C17/preordermany-order", "node visited in an empty list")
+			return true
+		})
+		if len(got) != 0 {
+			verifFail("C17/walkmany-count", "")
+		}
+		verifReach("C17/many-ok")
+		return
+	}
 	var want []verifVisit
 	for i, r := range roots {
 		for _, v := range verifExpectVisits(r, -1) {
@@ -221,7 +238,16 @@ func verifHarness_C17(part, parts, depth, mode, budget int) {
 	verifC17All(n)
 	// the *Many variants: the same node type three times in a list (all-present pattern only)
 	if mode == 1 && depth == 1 {
-		verifC17Many([]ast.Node{n, verifBuildAny(c, t, depth), verifBuildAny(&verifBuildCtx{1, 0}, t, 1)}, true)
+		// ... and lists of exactly one root and of none (the paths still start with "[0]");
+		// one list shape per path, so that the choices add up instead of multiplying
+		switch verifChoice(3) {
+		case 0:
+			verifC17Many([]ast.Node{n, verifBuildAny(c, t, depth), verifBuildAny(&verifBuildCtx{1, 0}, t, 1)}, true)
+		case 1:
+			verifC17Many([]ast.Node{n}, true)
+		default:
+			verifC17Many(nil, true)
+		}
 	}
 }
 
@@ -246,8 +272,10 @@ func verifC17Parsed(x string, entry int) {
 			roots = append(roots, root)
 		}
 	}
-	if len(roots) >= 2 {
+	if len(roots) >= 2 && verifChoice(2) == 0 {
 		verifC17Many(roots, false)
+	} else if len(roots) >= 1 {
+		verifC17Many(roots[:1], false)
 	}
 }
 
